@@ -180,7 +180,12 @@ class C20:
             nmap = dict(zip(nodes, [p + 10 for p in perm]))
             vals = sorted(set(labels.values())); pv = vals[:]; rng.shuffle(pv)
             lmap = dict(zip(vals, [x + 5 for x in pv]))
-            yield {"cls": 0, "rem": 1, "ops": ops, "labels": labels, "start": start, "delta": delta, "alphas": alphas,
+            # several labels / profiles: label l of node x, profile_size, and the documented argument errors
+            nlab = rng.choice([1, 2, 2, 3])
+            tab = [[x, l, (1 if mode == 1 else rng.randint(0, 2))] for x in nodes for l in range(nlab)]
+            psize = rng.choice([1, 1, 2, nlab, nlab + (1 if i % 17 == 0 else 0)])
+            prof = {"labels": list(range(nlab)), "psize": psize, "tab": tab, "alphas": ([] if i % 23 == 0 else [a for a in alphas if a % 100 == 0] or [100])}
+            yield {"cls": 0, "rem": 1, "ops": ops, "labels": labels, "start": start, "delta": delta, "alphas": alphas, "prof": prof,
                    "ptype": rng.randint(0, 4), "nmap": nmap, "lmap": lmap, "equal": mode == 1, "ids": "int", "src": "rand",
                    "presort": i % 2 == 1}
 
@@ -207,6 +212,9 @@ class C20:
         case["_ts"] = ts
         for t in ts:
             L.append("conf 0 %d %d %d %d %s" % (t, d, pt, len(case["alphas"]), al))
+        pr = case["prof"]
+        L.append(("confp 0 %d %d %d %d %d %s %d %s %d %s" % (s, d, pt, pr["psize"], len(pr["labels"]), " ".join(map(str, pr["labels"])),
+                  len(pr["alphas"]), " ".join(map(str, pr["alphas"])), len(pr["tab"]), " ".join("%d %d %d" % tuple(x) for x in pr["tab"]))).replace("  ", " "))
         return L
 
     @staticmethod
@@ -218,7 +226,8 @@ class C20:
         dump0, conf, sl, dump1, pres1, atrp, sconf = outs[i:i + 7]
         j = i + 7 + 1 + nops + nl + (len(case["nmap"]) if case.get("presort") else 0)
         conf2 = outs[j]
-        per_t = outs[j + 1:]
+        per_t = outs[j + 1:-1]
+        confp = outs[-1]
         fails = []
         s, d = case["start"], case["delta"]
         if sl != "ok" or oracles.is_err(dump1):
@@ -255,6 +264,32 @@ class C20:
                         exp = 1.0 if x in reach else 0.0
                         if not approx(v, exp):
                             fails.append(F("C20.all_equal", node=x, alpha=a, expected=exp, got=val))
+        # label profiles
+        pr = case["prof"]
+        import itertools as _it
+        if pr["psize"] > len(pr["labels"]) or not pr["alphas"]:
+            if confp != "E:VE":
+                fails.append(F("C20.profile_arguments", psize=pr["psize"], labels=pr["labels"], alphas=pr["alphas"], expected="E:VE", got=confp))
+        elif oracles.is_err(confp) or confp is None:
+            fails.append(F("C20.profiles_raised", got=confp))
+        else:
+            exp_prof = sorted("_".join("L%d" % l for l in c) for k in range(1, pr["psize"] + 1) for c in _it.combinations(pr["labels"], k))
+            if sorted(confp) != sorted("%.2f" % (a / 100.0) for a in pr["alphas"]):
+                fails.append(F("C20.alpha_keys", got=sorted(confp)))
+            for a, prof in confp.items():
+                if sorted(prof) != exp_prof:
+                    fails.append(F("C20.profile_keys", expected=exp_prof, got=sorted(prof)))
+                for p, sc in prof.items():
+                    if [x for x, _ in sc] != present:
+                        fails.append(F("C20.nodes", profile=p, start=s, expected=present, got=[x for x, _ in sc]))
+                    for x, val in sc:
+                        v = oracles_num(val)
+                        if not (-1 - 1e-9 <= v <= 1 + 1e-9):
+                            fails.append(F("C20.bound", node=x, alpha=a, profile=p, got=val))
+                        if case["equal"]:
+                            exp = 1.0 if x in reach else 0.0
+                            if not approx(v, exp):
+                                fails.append(F("C20.all_equal", node=x, alpha=a, profile=p, expected=exp, got=val))
         # renaming invariance
         if oracles.is_err(conf2) or conf2 is None:
             fails.append(F("C20.relabel", got=conf2))
